@@ -104,13 +104,17 @@ def check_readouts(rec, ch, kind, rng, ctx, n_combos):
             order = sel[np.argsort(full_p[sel], kind="stable")]
             # the requested top fraction: all but the int(n*(1-f)) lowest (one row of slack for the rounding convention)
             cut = int(n_sel * (1 - frac))
-            top = set(order[max(cut - 1, 0):].tolist())
             strict_top = order[cut:]
+            # with tied log-probabilities (flat or terraced posteriors) which of the tied rows belong to the top fraction is open:
+            # any row at least as probable as the lowest admissible one may be returned, every row more probable than the cut must be
+            p_low = full_p[order[max(cut - 1, 0)]] if n_sel else -np.inf
+            top = set(int(i) for i in sel if full_p[i] >= p_low)
+            must = [int(i) for i in sel if n_sel and cut < n_sel and full_p[i] > full_p[order[min(cut + 1, n_sel - 1)]]]
             # map returned rows back to chain indices
             rows_ok, used = True, []
             for r, q in zip(rs, rp):
                 hit = np.nonzero((full_p == q) & np.all(full_s == r[None, :], axis=1))[0]
-                hit = [h for h in hit if h in top]
+                hit = [int(h) for h in hit if int(h) in top and int(h) not in used]
                 if not hit:
                     rows_ok = False
                     break
@@ -120,7 +124,7 @@ def check_readouts(rec, ch, kind, rng, ctx, n_combos):
                               f"a pair of the chain taken from the top fraction of chain[{burn}::{t_eff}]", ictx)
             if rows_ok:
                 if want_n is None:
-                    rec.check(abs(len(used) - strict_top.size) <= 1 and len(set(used)) == len(used) and set(strict_top[1:].tolist()) <= set(used), "interval-incomplete",
+                    rec.check(abs(len(used) - strict_top.size) <= 1 and len(set(used)) == len(used) and set(must) <= set(used), "interval-incomplete",
                               lambda: f"{kind}: get_interval(interval={frac:.4f}, burn={burn}, thin={thin}) returned {len(used)} rows; the top fraction of the {n_sel} retained samples has {strict_top.size}", ictx)
                 else:
                     rec.check(len(used) <= want_n and len(set(used)) == len(used), "interval-too-many",
@@ -135,6 +139,9 @@ def run_job(job, rec):
         kind = mc.KINDS[(c + job["j"]) % len(mc.KINDS)]
         d = int(rng.choice([1, 2, 3, 4]))
         target = mc.GaussTarget(np.zeros(d), np.eye(d))
+        if rng.random() < 0.2:
+            target = mc.TerraceTarget(np.zeros(d), radius=float(rng.uniform(0.3, 1.0)), step=0.5)   # few distinct log-probabilities: ties at the cut
+            rec.count("cases:tied_log_probabilities")
         T = float(rng.choice([1.0, 1.0, 2.5]))
         bounds = None
         if kind in ("pca", "hmc", "ensemble") and rng.random() < 0.4:
